@@ -5,16 +5,12 @@ Table view: row r of reaction_input_indices lists, in increasing species order, 
 number of consumed species among the first s: species s (if consumed) sits at position ccount(r, s).
 """
 from bsvc.contracts import fuc, field_hint
+from contracts import simulator_interfaces as _si   # shared field hints
 from bsvc import axioms, speclib, terms as tm
 from bsvc.terms import REAL, INT
 from bsvc.values import Arr, to_term
 
 R0, I0, I1 = tm.mk_real(0), tm.mk_int(0), tm.mk_int(1)
-field_hint('CSimInterface.update_array', ndim=2, elem=REAL)
-field_hint('CSimInterface.delay_update_array', ndim=2, elem=REAL)
-field_hint('CSimInterface.initial_state', ndim=1, elem=REAL)
-field_hint('CSimInterface.propensity_buffer', ndim=1, elem=REAL)
-field_hint('ModelCSimInterface.np_param_values', ndim=1, elem=REAL)
 
 
 def _consumed(U, D, r, s):
